@@ -192,16 +192,25 @@ def gen_table(rng, nr, rows=None, allow_kde=True):
     if not allow_kde:
         kinds_pool = [x for x in kinds_pool if x not in ('kde', 'ints')]
     cols, kinds, descr = [], [], []
+    dtypes = ['float'] * k
     n_const = rng.choice([0, 0, 0, 0, 1, 1, 2]) if k > 2 else rng.choice([0, 0, 0, 1])
     const_at = set(rng.sample(range(k), n_const))
     # about 1 table in 4 has a NON-constant column whose range is tiny relative to its magnitude (or absolutely)
     near_at = rng.randrange(k) if rng.random() < 0.25 else -1
     for j in range(k):
         if j in const_at:
-            c = rng.choice([0.0, 1.0, -3.5, 5.0, 1e6, 0.1, 3.25])
-            cols.append(np.full(n, c))
-            kinds.append('const')
-            descr.append(f'const({c})')
+            if rng.random() < 0.4:
+                # integer dtype: small, bool-like, negative, and values float64 cannot hold (|v| > 2**53)
+                c = rng.choice([0, 1, 7, -7, 2 ** 53 + 1, -(2 ** 53) - 3, 1696118400123456789, 2 ** 62 + 12345, -(2 ** 63) + 5])
+                cols.append(np.full(n, c, dtype=np.int64))
+                kinds.append('const')
+                descr.append(f'const(int64 {c})')
+                dtypes[j] = 'int64'
+            else:
+                c = rng.choice([0.0, 1.0, -3.5, 5.0, 1e6, 0.1, 3.25, -0.0, 1e300, -1e-300, 5e-324, 2.0 ** 53 + 2.0])
+                cols.append(np.full(n, c))
+                kinds.append('const')
+                descr.append(f'const({c!r})')
             continue
         kind = rng.choice(kinds_pool)
         if near_at == j:
@@ -219,7 +228,26 @@ def gen_table(rng, nr, rows=None, allow_kde=True):
         labels = rng.sample(range(0, 40), k)
     else:
         labels = rng.sample(['a', 'B', 'c3', 'z', 'x_1', 'col', 'y', 'M', 'k9', 'w w', 'é', '0', 'b', 'A'], k)
-    return {'labels': labels, 'cols': cols, 'kinds': kinds, 'descr': descr, 'corr': R}
+    # row order: as drawn (exchangeable), or ORDERED by one column (sorted, block-ordered, trend)
+    varying = [j for j in range(k) if kinds[j] != 'const']
+    row_order = 'as-drawn'
+    if varying and rng.random() < 0.2:
+        key = cols[rng.choice(varying)]
+        row_order = rng.choice(['sorted-asc', 'sorted-desc', 'blocks', 'trend'])
+        if row_order == 'sorted-asc':
+            perm = np.argsort(key, kind='stable')
+        elif row_order == 'sorted-desc':
+            perm = np.argsort(-key, kind='stable')
+        elif row_order == 'blocks':
+            perm = np.argsort(key, kind='stable')
+            blocks = np.array_split(perm, 4)
+            rng.shuffle(blocks)
+            perm = np.concatenate(blocks)
+        else:
+            perm = np.argsort(key + 0.5 * float(np.std(key)) * nr.randn(n), kind='stable')
+        cols = [c[perm] for c in cols]
+    return {'labels': labels, 'cols': cols, 'kinds': kinds, 'descr': descr, 'corr': R, 'dtypes': dtypes,
+            'row_order': row_order}
 
 
 def gen_config(rng, tab, quick):
@@ -232,14 +260,29 @@ def gen_config(rng, tab, quick):
     if r < (0.06 if quick else 0.10):
         return ['default']
     if r < 0.50:
-        return [rng.choice(['class', 'str', 'inst']), pick_single()]
+        form, name = rng.choice(['class', 'str', 'inst']), pick_single()
+        if form == 'inst' and name == 'GaussianKDE' and rng.random() < 0.6:
+            # one instance for the whole table: weights have the table's row count, whatever the column
+            varying = [c for c, kd in zip(tab['cols'], tab['kinds']) if kd != 'const']
+            opts = gen_inst_opts(rng, name, varying[0] if varying else tab['cols'][0])
+            if opts:
+                return [form, name, opts]
+        return [form, name]
     labs, kinds = list(tab['labels']), list(tab['kinds'])
     items = []
-    for lab, kind in zip(labs, kinds):
+    for lab, kind, col in zip(labs, kinds, tab['cols']):
         name = KIND2CLASS[kind] if rng.random() < 0.8 else rng.choice(list(FAST) + list(SLOW))
         if quick and name in SLOW and rng.random() < 0.5:
             name = rng.choice(FAST)
-        items.append([enc_label(lab), [rng.choice(['class', 'str', 'inst']), name]])
+        form = rng.choice(['class', 'str', 'inst'])
+        if kind != 'const' and rng.random() < 0.08:
+            form, name = 'inst', 'Univariate'           # a selector instance, possibly with selection_sample_size
+        leaf_ = [form, name]
+        if form == 'inst' and kind != 'const' and rng.random() < 0.6:
+            opts = gen_inst_opts(rng, name, col)
+            if opts:
+                leaf_ = [form, name, opts]
+        items.append([enc_label(lab), leaf_])
     return ['dict', shape_dict(rng, items)]
 
 
@@ -283,13 +326,61 @@ def dict_items(spec):
     return [list(x) for x in body.items()] if isinstance(body, dict) else [list(x) for x in body]
 
 
+def gen_inst_opts(rng, name, col):
+    """constructor options of an INSTANCE configuration (JSON-able): GaussianKDE(weights=non-uniform | bw_method=
+    'silverman' / scalar | sample_size=k), TruncatedGaussian(minimum, maximum), Univariate(selection_sample_size=k)."""
+    x = np.asarray(col, dtype=float)
+    n = len(x)
+    if name == 'GaussianKDE':
+        what = rng.choice(['weights', 'weights', 'bw', 'sample_size', 'none'])
+        if what == 'weights' and np.std(x) > 0:
+            style = rng.choice(['tilt', 'random', 'two-level'])
+            if style == 'tilt':
+                # moderately non-uniform (effective sample size stays ~n/3: a near-degenerate weight vector blows the
+                # kernel bandwidth up beyond GaussianKDE's root bracket — a different matter, see kde-bracket class)
+                w = np.exp(rng.choice([-0.8, 0.8]) * np.clip((x - x.mean()) / x.std(), -2.5, 2.5))
+            elif style == 'random':
+                w = np.array([rng.gammavariate(0.5, 1.0) + 1e-3 for _ in range(n)])
+            else:
+                w = np.where(np.arange(n) % 3 == 0, 10.0, 1.0)
+            return {'weights': [float(v) for v in w]}
+        if what == 'bw':
+            return {'bw_method': rng.choice(['silverman', 0.3, 0.8])}
+        if what == 'sample_size':
+            return {'sample_size': rng.choice([max(5, n // 2), n, 2 * n])}
+        return {}
+    if name == 'TruncatedGaussian' and np.std(x) > 0:
+        r = float(x.max() - x.min())
+        pad = rng.choice([1e-3, 0.5, 2.0]) * r
+        return {'minimum': float(x.min() - pad), 'maximum': float(x.max() + pad)}
+    if name == 'Univariate' and n >= 12:
+        return {'selection_sample_size': rng.choice([max(5, n // 3), max(6, n // 2), n + 5])}
+    return {}
+
+
+def leaf_opts(case, j):
+    """constructor options configured for column j ({} when none)."""
+    spec = case['config']
+    if spec[0] == 'default':
+        return {}
+    if spec[0] == 'dict':
+        for k_, v in dict_items(spec):
+            if k_ == enc_label(case['labels'][j]):
+                return dict(v[2]) if len(v) > 2 and v[2] else {}
+        return {}
+    return dict(spec[2]) if len(spec) > 2 and spec[2] else {}
+
+
 def build_config(spec):
-    def leaf(form, name):
+    def leaf(form, name, opts=None):
         if form == 'class':
             return _cls(name)
         if form == 'str':
             return FQN[name]
-        return _cls(name)()
+        kw = dict(opts or {})
+        if 'weights' in kw:
+            kw['weights'] = np.array(kw['weights'], dtype=float)
+        return _cls(name)(**kw)
     if spec[0] == 'default':
         return None
     if spec[0] == 'dict':
@@ -309,35 +400,58 @@ def gen_seed(rng):
 def make_case(rng, nr, quick, **kw):
     tab = gen_table(rng, nr, **kw)
     ndarray = False
-    if isinstance(tab['labels'][0], int) and rng.random() < 0.4:
+    if isinstance(tab['labels'][0], int) and rng.random() < 0.4 and all(t == 'float' for t in tab['dtypes']):
         # the training table is a numpy array: fit() labels its columns 0..k-1, a dict is keyed by those ints
         tab['labels'] = list(range(len(tab['labels'])))
         ndarray = True
     return {'labels': tab['labels'], 'cols': [c.tolist() for c in tab['cols']], 'kinds': tab['kinds'],
-            'descr': tab['descr'], 'config': gen_config(rng, tab, quick), 'seed': gen_seed(rng), 'ndarray': ndarray}
+            'descr': tab['descr'], 'config': gen_config(rng, tab, quick), 'seed': gen_seed(rng), 'ndarray': ndarray,
+            'dtypes': tab['dtypes'], 'row_order': tab['row_order']}
+
+
+def col_dtypes(case):
+    return list(case.get('dtypes') or ['float'] * len(case['labels']))
 
 
 def case_input(case, **extra):
     """JSON-able, exactly replayable rendering of a case."""
     d = {'labels': [enc_label(x) for x in case['labels']], 'readable_labels': [repr(x) for x in case['labels']],
-         'cols_hex': [[vc.f2h(v) for v in c] for c in case['cols']], 'kinds': case['kinds'],
-         'config': case['config'], 'seed': case['seed'], 'ndarray': bool(case.get('ndarray'))}
+         'cols_hex': [[str(int(v)) for v in c] if dt == 'int64' else [vc.f2h(v) for v in c]
+                      for c, dt in zip(case['cols'], col_dtypes(case))], 'kinds': case['kinds'],
+         'config': case['config'], 'seed': case['seed'], 'ndarray': bool(case.get('ndarray')),
+         'dtypes': col_dtypes(case), 'row_order': case.get('row_order', 'as-drawn')}
     d.update(extra)
     return d
 
 
+def short_config(spec):
+    """configuration with long option values (weights) abbreviated, for messages."""
+    def leaf(v):
+        if len(v) > 2 and v[2]:
+            return [v[0], v[1], {k_: ('<%d weights>' % len(x_) if k_ == 'weights' else x_) for k_, x_ in v[2].items()}]
+        return list(v[:2])
+    if spec[0] == 'default':
+        return spec
+    if spec[0] == 'dict':
+        return ['dict', [[k_, leaf(v)] for k_, v in dict_items(spec)]]
+    return leaf(spec)
+
+
 def brief(case, **extra):
     """short rendering for obligation details (the full table goes into failing-input replays only)."""
-    d = {'labels': [repr(x) for x in case['labels']], 'kinds': case['kinds'], 'config': case['config'],
+    d = {'labels': [repr(x) for x in case['labels']], 'kinds': case['kinds'], 'config': short_config(case['config']),
          'seed': case['seed'], 'rows': len(case['cols'][0])}
     d.update(extra)
     return d
 
 
 def case_from_input(inp):
+    dts = inp.get('dtypes') or ['float'] * len(inp['labels'])
     return {'labels': [dec_label(t) for t in inp['labels']],
-            'cols': [[vc.h2f(h) for h in c] for c in inp['cols_hex']], 'kinds': inp.get('kinds', []),
-            'descr': [], 'config': inp['config'], 'seed': inp['seed'], 'ndarray': bool(inp.get('ndarray'))}
+            'cols': [[int(h) for h in c] if dt == 'int64' else [vc.h2f(h) for h in c]
+                     for c, dt in zip(inp['cols_hex'], dts)], 'kinds': inp.get('kinds', []),
+            'descr': [], 'config': inp['config'], 'seed': inp['seed'], 'ndarray': bool(inp.get('ndarray')),
+            'dtypes': list(dts), 'row_order': inp.get('row_order', 'as-drawn')}
 
 
 # --------------------------------------------------------------------------------------------- the real code
@@ -364,7 +478,8 @@ def fit_model(case):
     """fit the real model; -> (model, X).  An unseeded model draws from the global stream, which is saved, seeded
     and restored around every use (the harness never consumes global randomness)."""
     from copulas.multivariate import GaussianMultivariate
-    X = pd.DataFrame({lab: np.array(col, dtype=float) for lab, col in zip(case['labels'], case['cols'])},
+    X = pd.DataFrame({lab: np.array(col, dtype=(np.int64 if dt == 'int64' else float))
+                      for lab, col, dt in zip(case['labels'], case['cols'], col_dtypes(case))},
                      columns=list(case['labels']))
     cfg = build_config(case['config'])
     kind, s = case['seed']
@@ -487,7 +602,7 @@ def table_request(cmd, case, *pre):
     d, r = len(case['labels']), len(case['cols'][0])
     ws = ['gs', cmd] + [str(p) for p in pre] + [str(d), str(r)] + [enc_label(x) for x in case['labels']]
     for c in case['cols']:
-        ws += [vc.f2h(v) for v in c]
+        ws += [vc.f2h(float(v)) for v in c]          # the Lean model runs at Float (exact-integer check: schema oracle)
     return ' '.join(ws)
 
 
@@ -527,6 +642,23 @@ def schema_problems(model, case, out, n, draws=None):
         probs.append(('rows', len(out)))
     for j, lab in enumerate(labels):
         col = out.iloc[:, j]
+        dts = col_dtypes(case)
+        tr_raw = case['cols'][j]
+        is_const = all(x == tr_raw[0] for x in tr_raw)
+        if dts[j] == 'int64' and is_const:
+            # an INTEGER constant column must come back exactly, also beyond 2**53 (compared as Python ints)
+            want = int(tr_raw[0])
+            try:
+                vals = col.tolist()
+                got_ints = [int(x) for x in vals]
+                exact = len(got_ints) == n and all(g == want for g in got_ints) and \
+                    all((not isinstance(x, float)) or x.is_integer() for x in vals)
+            except Exception:  # noqa
+                got_ints, exact = [repr(x) for x in col.tolist()[:3]], False
+            if not exact:
+                probs.append(('constant', {'column': repr(lab), 'trained_on_integer_constant': want,
+                                           'sampled': got_ints[:3], 'sampled_dtype': str(col.dtype)}))
+            continue
         if col.dtype != np.float64:
             probs.append(('dtype', f'{lab!r}: {col.dtype}'))
             continue
@@ -550,8 +682,10 @@ def schema_problems(model, case, out, n, draws=None):
                            'univariate': type(unis[j]).__name__ + '>' + type(getattr(unis[j], '_instance', None)).__name__
                            if j < len(unis) else '?'}))
         tr = np.asarray(case['cols'][j], dtype=float)
-        if np.all(tr == tr[0]) and not (len(v) == n and np.all(v == tr[0])):
-            probs.append(('constant', f'{lab!r}: trained on constant {tr[0]!r}, sampled {v[:4].tolist()}'))
+        if np.all(tr == tr[0]) and not (len(v) == n and bits_equal(v, np.full(len(v), tr[0]))):
+            # bit-exact: -0.0, denormals, 1e300 and 0.1 come back as the very same float
+            probs.append(('constant', {'column': repr(lab), 'trained_on_constant': [float(tr[0]), vc.f2h(tr[0])],
+                                       'sampled': [[float(x), vc.f2h(x)] for x in v[:3]]}))
     return probs
 
 
@@ -592,7 +726,28 @@ def ref_inverse(cdf, u, lo, hi, iters=64):
     return 0.5 * (lo + hi)
 
 
-def kde_inversion_problems(case, unis, out, draws, max_rows=600):
+def independent_kde_cdf(uni, opts):
+    """x -> sum_i w_i Phi((x - d_i) / h): the fitted (weighted) Gaussian kernel law, rebuilt in the harness from
+    `_params['dataset']`, the CONFIGURED weights (uniform when none) and scipy's bandwidth factor.  None if unavailable."""
+    from scipy.special import ndtr
+    kde = uni if type(uni).__name__ == 'GaussianKDE' else getattr(uni, '_instance', None)
+    try:
+        data = np.asarray(kde._params['dataset'], dtype=float).ravel()
+        factor = float(kde._model.factor)
+    except Exception:  # noqa
+        return None
+    w = np.asarray(opts['weights'], dtype=float) if opts.get('weights') is not None else np.ones(len(data))
+    if len(w) != len(data) or len(data) < 2:
+        return None
+    w = w / w.sum()
+    var = float(np.cov(data, aweights=w, bias=False))
+    if not var > 0:
+        return None
+    h = factor * math.sqrt(var)
+    return lambda x: ndtr((np.asarray(x, dtype=float)[:, None] - data) / h).dot(w)
+
+
+def kde_inversion_problems(case, unis, out, draws, max_rows=600, probs_marginal=None):
     """deterministic oracle for the columns modelled by GaussianKDE (whose percent_point is Copulas' OWN root
     finder): the sampled cell must be the quantile of the fitted KDE at u = Phi(normal draw), as computed by an
     independent bisection of `univariate.cdf`, in the column's own scale:
@@ -601,6 +756,7 @@ def kde_inversion_problems(case, unis, out, draws, max_rows=600):
     distribution is not affected), and the sampled column must not be quantised: >= 98% distinct values.
     -> list of (column, observed)"""
     probs = []
+    marg = probs_marginal if probs_marginal is not None else []
     d = len(case['labels'])
     if draws is None or getattr(draws, 'shape', None) != (len(out), d):
         return probs
@@ -622,6 +778,21 @@ def kde_inversion_problems(case, unis, out, draws, max_rows=600):
         tol_p = max(2e-4, numeric_slack(tr)[0])
         bad = (err > 1e-6) & ~(res <= tol_p)
         distinct = int(len(np.unique(x)))
+        # INDEPENDENT of the model's own cdf: the weighted kernel cdf rebuilt from the stored dataset, the configured
+        # weights and the bandwidth factor scipy reports;  F_w(sampled cell) must be Phi(draw)
+        ind = independent_kde_cdf(unis[j], leaf_opts(case, j))
+        if ind is not None:
+            res_ind = np.abs(ind(x) - u)
+            off = res_ind > tol_p + 1e-6
+            if off.any():
+                i = int(np.argmax(res_ind))
+                marg.append((j, {'cells_checked': int(len(x)), 'cells_off': int(off.sum()),
+                                 'worst': {'u': float(u[i]), 'sampled': float(x[i]),
+                                           'independent_weighted_kernel_cdf': float(ind(x[i:i + 1])[0]),
+                                           'models_own_cdf': float(np.asarray(unis[j].cdf(x[i:i + 1]))[0])},
+                                 'options': {k_: (v_ if k_ != 'weights' else 'non-uniform, %d values' % len(v_))
+                                             for k_, v_ in leaf_opts(case, j).items()},
+                                 'univariate': type(unis[j]).__name__ + '>' + type(getattr(unis[j], '_instance', None)).__name__}))
         if bad.any() or (len(x) >= 20 and distinct < 0.98 * len(x)):
             i = int(np.argmax(np.where(bad, res, -1.0))) if bad.any() else 0
             probs.append((j, {'cells_checked': int(len(x)), 'cells_off': int(bad.sum()), 'distinct_values': distinct,
@@ -632,6 +803,9 @@ def kde_inversion_problems(case, unis, out, draws, max_rows=600):
     return probs
 
 
+KDE_MARG_REQ = ('the probability of a sampled GaussianKDE cell under the fitted WEIGHTED kernel law (dataset, configured '
+                'weights, scipy bandwidth factor; computed independently of the model\'s cdf) equals Phi(normal draw) up to '
+                'the solver tolerance')
 KDE_INV_REQ = ('a GaussianKDE-modelled column is percent_point(Phi(draw)): within 1e-6 training ranges of an independent '
                'bisection of the fitted cdf (or cdf residual <= 2e-4), and not quantised (>= 98% distinct values)')
 
@@ -686,7 +860,7 @@ def empirical_law_problems(case, unis, cols):
                             {'sample_q01_q99': [float(lo), float(hi)], 'training_range': [float(tr.min()), float(tr.max())],
                              'requested': rq},
                             'central 98% of the sampled column inside the training range extended by 3 ranges'))
-        if (rq == 'GaussianKDE' and kind != 'ints') or matched:
+        if ((rq == 'GaussianKDE' and kind != 'ints') or matched) and not leaf_opts(case, j).get('weights'):
             D = ks_two_sample(tr, v)
             band = dkw_eps(len(tr)) + dkw_eps(len(v)) + 0.15
             if not D <= band:
@@ -783,6 +957,12 @@ def tie_case(ctx, lean, case, ns, note):
     ctx.count('seed:' + case['seed'][0])
     ctx.count('ncols:%d' % d)
     ctx.count('input:' + ('ndarray' if case.get('ndarray') else 'DataFrame'))
+    ctx.count('row-order:' + case.get('row_order', 'as-drawn'))
+    for j_ in range(d):
+        for k_ in leaf_opts(case, j_):
+            ctx.count('inst-option:' + k_)
+        if col_dtypes(case)[j_] == 'int64':
+            ctx.count('const-int64' + (':beyond-2**53' if abs(int(case['cols'][j_][0])) > 2 ** 53 else ''))
     if form == 'dict':
         keys = [k for k, _ in dict_items(case['config'])]
         lead = keys == [enc_label(x) for x in case['labels']][:len(keys)]
@@ -1032,6 +1212,18 @@ def search(ctx, deep):
     for t in range((4 if quick else 10) if deep else 2):
         stats['kde_scale_tables'] = stats.get('kde_scale_tables', 0) + 1
         oracle_case(ctx, kde_scale_case(rng4, nr4), stats, schema_ns=[rng4.randint(100, 400)], big=deep, light=True)
+    # instances with options (weighted KDE, bw_method, sample_size, TruncatedGaussian bounds)
+    rng6 = ctx.rng('search', 'kde-options')
+    nr6 = ctx.nprng('search', 'kde-options')
+    for t in range((4 if quick else 10) if deep else 2):
+        stats['kde_option_tables'] = stats.get('kde_option_tables', 0) + 1
+        oracle_case(ctx, kde_options_case(rng6, nr6), stats, schema_ns=[rng6.randint(150, 400)], big=deep, light=True)
+    # constant columns of every flavour (int64 beyond 2**53, small ints, -0.0, denormal, 1e300): exact reproduction
+    rng5 = ctx.rng('search', 'constants')
+    nr5 = ctx.nprng('search', 'constants')
+    for t in range((4 if quick else 10) if deep else 2):
+        stats['constant_zoo_tables'] = stats.get('constant_zoo_tables', 0) + 1
+        oracle_case(ctx, constant_zoo_case(rng5, nr5), stats, schema_ns=[1, rng5.randint(2, 50)], big=False)
     # per-column dicts whose key order / coverage differs from the table's column order: schema only (cheap)
     rng3 = ctx.rng('search', 'dict-shapes')
     nr3 = ctx.nprng('search', 'dict-shapes')
@@ -1138,6 +1330,86 @@ def kde_scale_case(rng, nr):
         spec = [form, 'GaussianKDE']
     return {'labels': labels, 'cols': [c.tolist() for c in cols], 'kinds': kinds, 'descr': descr, 'config': spec,
             'seed': ['int', rng.randrange(2 ** 31)], 'ndarray': False}
+
+
+def kde_options_case(rng, nr):
+    """ordinary-scale columns configured with INSTANCES carrying options: GaussianKDE(weights=non-uniform),
+    GaussianKDE(bw_method=...), GaussianKDE(sample_size=...), TruncatedGaussian(minimum, maximum); the first column
+    always gets a weighted KDE (alone for the whole table, or inside a per-column dict)."""
+    n = rng.choice([60, 150, 300])
+    k = rng.choice([2, 3, 4])
+    R, L = random_correlation(rng, nr, k)
+    Z = nr.randn(n, k) @ L.T
+    kinds = [rng.choice(['kde', 'gaussian', 'gamma', 'truncated']) for _ in range(k)]
+    cols, descr = [], []
+    for j, kd in enumerate(kinds):
+        q, dsc = marginal(rng, kd)
+        cols.append(np.asarray(q(Z[:, j]), dtype=float))
+        descr.append(dsc)
+    labels = rng.sample(['a', 'b', 'c', 'd', 'w w', 7, 3, 12, 40], k)
+    if not all(isinstance(x, int) for x in labels):
+        labels = [str(x) for x in labels]
+
+    def weighted(col):
+        for _ in range(20):
+            o = gen_inst_opts(rng, 'GaussianKDE', col)
+            if 'weights' in o:
+                return o
+        return {}
+    if rng.random() < 0.35:
+        spec = ['inst', 'GaussianKDE', weighted(cols[0])]
+    else:
+        items = [[enc_label(labels[0]), ['inst', 'GaussianKDE', weighted(cols[0])]]]
+        for lab, kd, col in zip(labels[1:], kinds[1:], cols[1:]):
+            name = rng.choice(['GaussianKDE', 'GaussianKDE', 'TruncatedGaussian', 'GaussianUnivariate'])
+            opts = gen_inst_opts(rng, name, col)
+            items.append([enc_label(lab), ['inst', name, opts] if opts else ['inst', name]])
+        spec = ['dict', shape_dict(rng, items, rng.choice(['full-in-order', 'full-reversed', 'full-shuffled']))]
+    return {'labels': labels, 'cols': [c.tolist() for c in cols], 'kinds': kinds, 'descr': descr, 'config': spec,
+            'seed': ['int', rng.randrange(2 ** 31)], 'ndarray': False, 'dtypes': ['float'] * k, 'row_order': 'as-drawn'}
+
+
+def constant_zoo_case(rng, nr):
+    """two ordinary columns among several CONSTANT columns of every flavour: int64 beyond 2**53 (nanosecond timestamp,
+    64-bit id), small / bool-like / negative ints, and float constants 0.1, -0.0, 1e300, a denormal."""
+    n = rng.choice([30, 80, 200])
+    ints = [1696118400123456789, 2 ** 53 + 1, rng.choice([0, 1]), rng.choice([-7, -(2 ** 53) - 3, -(2 ** 63) + 5]),
+            2 ** 62 + rng.randrange(1, 10 ** 6)]
+    floats = [0.1, -0.0, 1e300, 5e-324, rng.choice([-1e-300, 2.0 ** 53 + 2.0, 3.25])]
+    consts = [('int64', v) for v in rng.sample(ints, 3)] + [('float', v) for v in rng.sample(floats, 3)]
+    rng.shuffle(consts)
+    R, L = random_correlation(rng, nr, 2)
+    Z = nr.randn(n, 2) @ L.T
+    cols, kinds, descr, dtypes = [], [], [], []
+    var = [('gaussian', Z[:, 0]), (rng.choice(['gamma', 'uniform']), Z[:, 1])]
+    slots = ['v'] * 2 + ['c'] * len(consts)
+    rng.shuffle(slots)
+    for sl in slots:
+        if sl == 'v':
+            kd, z = var.pop()
+            q, dsc = marginal(rng, kd)
+            cols.append(np.asarray(q(z), dtype=float).tolist())
+            kinds.append(kd)
+            descr.append(dsc)
+            dtypes.append('float')
+        else:
+            dt, v = consts.pop()
+            cols.append([v] * n)
+            kinds.append('const')
+            descr.append(f'const({dt} {v!r})')
+            dtypes.append(dt)
+    labels = rng.sample(['ts', 'id', 'flag', 'a', 'b', 'c', 'd', 'e', 'f', 'g'], len(slots))
+    form = rng.choice(['default', 'class', 'str', 'inst', 'dict'])
+    if form == 'default':
+        spec = ['default']
+    elif form == 'dict':
+        spec = ['dict', shape_dict(rng, [[enc_label(lab), [rng.choice(['class', 'str', 'inst']),
+                                                            rng.choice(list(FAST) + ['TruncatedGaussian', 'BetaUnivariate'])]]
+                                         for lab in labels], rng.choice(['full-in-order', 'full-shuffled', 'subset-shuffled']))]
+    else:
+        spec = [form, rng.choice(list(FAST) + ['TruncatedGaussian', 'BetaUnivariate', 'StudentTUnivariate'])]
+    return {'labels': labels, 'cols': cols, 'kinds': kinds, 'descr': descr, 'config': spec,
+            'seed': ['int', rng.randrange(2 ** 31)], 'ndarray': False, 'dtypes': dtypes, 'row_order': 'as-drawn'}
 
 
 def scale_stress_case(rng, nr, deep):
@@ -1348,6 +1620,23 @@ def columns_in_table_order(ctx, case, model, n=None):
     return False
 
 
+def raise_class(e, unis):
+    """class suffix for an exception raised by sample(): `kde-bracket-misses-quantile` when it is chandrupatla's
+    bracket assertion and some GaussianKDE-backed marginal has cdf(max + 5 std) visibly below 1 (bandwidth large
+    relative to the data spread: few effective observations, large bw_method); `raises` otherwise."""
+    if isinstance(e, AssertionError):
+        for u in unis:
+            if kde_backed(u):
+                kde = u if type(u).__name__ == 'GaussianKDE' else u._instance
+                try:
+                    lo, hi = kde._get_bounds()
+                    if float(np.asarray(kde.cdf(np.array([hi])))[0]) < 1 - 1e-6:
+                        return 'kde-bracket-misses-quantile'
+                except Exception:  # noqa
+                    pass
+    return 'raises'
+
+
 def oracle_case(ctx, case, stats, schema_ns, big, only=None, hunt=0, light=False):
     """C01 on the real code for one fitted model.  `only` restricts to one failure class (replay)."""
     ep = 'GaussianMultivariate.sample'
@@ -1366,7 +1655,7 @@ def oracle_case(ctx, case, stats, schema_ns, big, only=None, hunt=0, light=False
             out, calls = real_sample(model, case, n, first)
         except Exception as e:  # noqa
             ctx.fail_input(ep, case_input(case, n=n), 'raised ' + repr(e)[:300], 'sample(n) returns a frame',
-                           ep + ':raises')
+                           ep + ':' + raise_class(e, unis))
             return
         first = False
         stats['schema_checks'] += 1
@@ -1376,9 +1665,13 @@ def oracle_case(ctx, case, stats, schema_ns, big, only=None, hunt=0, light=False
                            'constant training columns reproduced exactly', f'{ep}:schema-{what}')
         if len(calls) == 1 and [enc_label(c) for c in (model.columns or [])] == [enc_label(x) for x in case['labels']] \
                 and isinstance(out, pd.DataFrame) and out.shape == (n, d):
-            for j, obs in kde_inversion_problems(case, unis, out, calls[0]['out']):
+            marg_ = []
+            for j, obs in kde_inversion_problems(case, unis, out, calls[0]['out'], probs_marginal=marg_):
                 stats['kde_inversion_failures'] = stats.get('kde_inversion_failures', 0) + 1
                 ctx.fail_input(ep, case_input(case, n=n, column=j), obs, KDE_INV_REQ, f'{ep}:kde-column-quantised')
+            for j, obs in marg_:
+                ctx.fail_input(ep, case_input(case, n=n, column=j), obs, KDE_MARG_REQ,
+                               f'{ep}:kde-column-not-fitted-marginal')
             stats['kde_inversion_checks'] = stats.get('kde_inversion_checks', 0) + sum(1 for u_ in unis if kde_backed(u_))
     if not columns_in_table_order(ctx, case, model, N_BIG if big else None):
         return
@@ -1418,9 +1711,12 @@ def oracle_case(ctx, case, stats, schema_ns, big, only=None, hunt=0, light=False
         else:
             ctx.fail_input(ep, case_input(case, n=n, column=j), obs, req, f'{ep}:{what}')
     dr_ = calls[0]['out'] if len(calls) == 1 and calls[0]['out'].shape == (n, d) else None
-    for j, obs in kde_inversion_problems(case, unis, out, dr_):
+    marg_ = []
+    for j, obs in kde_inversion_problems(case, unis, out, dr_, probs_marginal=marg_):
         stats['kde_inversion_failures'] = stats.get('kde_inversion_failures', 0) + 1
         ctx.fail_input(ep, case_input(case, n=n, column=j), obs, KDE_INV_REQ, f'{ep}:kde-column-quantised')
+    for j, obs in marg_:
+        ctx.fail_input(ep, case_input(case, n=n, column=j), obs, KDE_MARG_REQ, f'{ep}:kde-column-not-fitted-marginal')
     stats['kde_inversion_checks'] = stats.get('kde_inversion_checks', 0) + sum(1 for u_ in unis if kde_backed(u_))
     stats['correlation_entry_checks'] = stats.get('correlation_entry_checks', 0) + 1
     for pair, obs in correlation_entry_problems(case, model, unis, nonconst):
